@@ -60,7 +60,7 @@ func build(w *sim.World) {
 		name := names[simrt.Choose(len(names))]
 		rep := simrt.Choose(2) == 1
 		dt := lorawan.DwellTime(simrt.Choose(2))
-		nOps := simrt.Choose(41)
+		nOps := simrt.Choose(1 + 40*sim.Scale)
 		sub := simrt.Raw()
 		w.Notef("task %d: %s repeater=%v dwell=%d, %d operations", i, name, rep, dt, nOps)
 		w.Spawn(fmt.Sprintf("operator%d", i), func() { operator(name, rep, dt, nOps, sub) })
@@ -255,7 +255,11 @@ func (st *state) op(r *sim.Rand) {
 			return
 		}
 		if err != nil {
-			simrt.Report("p2.addchannel-rejected:"+st.name, fmt.Sprintf("AddChannel(%d,%d,%d) refused by a dynamic channel plan: %v", f, minDR, maxDR, err))
+			// a dynamic plan must take a channel on the region's grid; whether it
+			// validates junk arguments is its own business (the model is unchanged)
+			if grid {
+				simrt.Report("p2.addchannel-rejected:"+st.name, fmt.Sprintf("AddChannel(%d,%d,%d) refused by a dynamic channel plan: %v", f, minDR, maxDR, err))
+			}
 			return
 		}
 		// whether a fresh channel starts enabled is read back once and then
